@@ -112,6 +112,38 @@ Proof.
   exists m. split; [exact E|]. intros y Hy. rewrite covers_incl_lt by exact Hy. apply H. exact Hy.
 Qed.
 
+(* the same with is_concepts_sorted=True: the code then uses the index as sort position, and the ONLY
+   thing it needs from the listing is that it is topological (every concept after all its
+   super-concepts) - not the particular order of sort_concepts *)
+Theorem by_spanning_tree_extents_sorted t enum k :
+  is_top (cs_lt cs) n t ->
+  (forall i j, i < n -> j < n -> cs_lt cs i j = true -> j < i) ->
+  (forall l x, In x (enum l) <-> In x l) ->
+  (match k with Some j => 1 <= j | None => True end) ->
+  exists m, by_spanning_tree (cs_lt cs) (cs_rank cs true) n enum k = Done m /\
+            forall y, y < n -> same_set (m y) (lower_covers (incl_lt cs) n y).
+Proof.
+  intros Ht Htopo Henum Hk.
+  assert (Ht0 : t = 0).
+  { destruct Ht as [Htn Htop]. destruct (Nat.eq_dec t 0) as [E|E]; [exact E|]. exfalso.
+    assert (H0 : 0 < n) by lia. assert (X := Htopo 0 t H0 Htn (Htop 0 H0 (fun H => E (eq_sym H)))). lia. }
+  destruct (by_spanning_tree_covers (cs_lt cs) (cs_rank cs true) n t enum k cs_strict_order) as [m [E H]].
+  - intros i j Hi Hj Hlt. simpl. apply Htopo; assumption.
+  - exact Ht.
+  - intros c Hc. simpl. rewrite Ht0. tauto.
+  - exact Henum.
+  - exact Hk.
+  - exists m. split; [exact E|]. intros y Hy. rewrite covers_incl_lt by exact Hy. apply H. exact Hy.
+Qed.
+
+Theorem complete_comparison_extents_sorted a :
+  (forall i j, i < n -> j < n -> cs_lt cs i j = true -> j < i) -> a < n ->
+  complete_comparison (cs_lt cs) n true a = lower_covers (incl_lt cs) n a.
+Proof.
+  intros Htopo Ha. rewrite covers_incl_lt by exact Ha.
+  apply (complete_comparison_sorted (cs_lt cs) n cs_strict_order a Htopo Ha).
+Qed.
+
 Theorem complete_comparison_extents a : a < n ->
   complete_comparison (cs_lt cs) n false a = lower_covers (incl_lt cs) n a.
 Proof.
